@@ -72,10 +72,9 @@ def run05(rep, tier):
             continue
         # once per signed event: the plain one and the one that carried a stale `hashes` when it was signed
         key = (c["v"], c["shape"], tuple(sorted(c["signers"])), c["step"][0] == "prehash")
-        if key in seen:
-            continue
+        if key not in seen:
+            nontriv += 1       # distinct signed events; every case is judged (the step does not change what was signed)
         seen.add(key)
-        nontriv += 1
         want_ch = h(o["chpre"], "standard")
         want_rh = h(o["rhpre"], c["alphabet"])
         det = {"case": brief(c), "content_pre_image": o["chpre"], "reference_pre_image": o["rhpre"], "alphabet": c["alphabet"]}
